@@ -1,5 +1,283 @@
-import BroodModel.Inv
+/-
+  C01 — World behaves as a map from live identifiers to component sets.
+
+  `World.entity w id` is the map a user has in mind (the values stored for `id`, in registry
+  order, `none` when `id` is not live).  The theorems say how each public operation changes that
+  map and that nothing else changes — for every world satisfying the invariant, hence (by
+  `run_inv`) for every world reachable by any history — and lift this to whole histories as a
+  refinement of the reference map `Ref`.
+
+  `clone`, `clone_from` and serialize+deserialize involve a second world; their map-level
+  statements are in C10 / C06 and the correspondence check covers them for C01.
+-/
+import BroodModel.Lemmas.Entity
+
 namespace Brood
-theorem C01_placeholder_init (n : Nat) (res : List Val) : (World.init n res).len = 0 := rfl
+
+/-! ### per-operation statements (with the results the operation returns) -/
+
+/-- `insert` adds exactly one entity under a previously dead identifier; nothing else changes. -/
+theorem C01_insert {w w' : World} {shape : List Nat} {vals : List Val} {nid : Ident} (hi : Inv w)
+    (e : w.insert shape vals = .ok (w', nid)) :
+    w.entity nid = none ∧ w'.entity nid = some (World.canonVals w.n shape vals) ∧
+    (∀ id', id' ≠ nid → w'.entity id' = w.entity id') ∧ w'.len = w.len + 1 :=
+  insert_entity hi e
+
+/-- `extend` returns one identifier per batch row, in batch order, all distinct and previously
+dead; row `k` is stored under identifier `k`; nothing else changes. -/
+theorem C01_extend {w w' : World} {shape : List Nat} {rows : List (List Val)} {ids : List Ident}
+    (hi : Inv w) (e : w.extend shape rows = .ok (w', ids)) :
+    ids.length = rows.length ∧ ids.Nodup ∧ (∀ id ∈ ids, w.entity id = none) ∧
+    (∀ (k : Nat) (id : Ident) (r : List Val), ids[k]? = some id → rows[k]? = some r →
+      w'.entity id = some (World.canonVals w.n shape r)) ∧
+    (∀ id', id' ∉ ids → w'.entity id' = w.entity id') ∧ w'.len = w.len + rows.length :=
+  extend_entity hi e
+
+/-- `remove` deletes exactly that entity (a stale or unknown identifier: nothing). -/
+theorem C01_remove {w w' : World} {id : Ident} {drops : List Val} (hi : Inv w)
+    (e : w.remove id = .ok (w', drops)) :
+    w'.entity id = none ∧ (∀ id', id' ≠ id → w'.entity id' = w.entity id') ∧
+    w'.len + (if (w.entity id).isSome then 1 else 0) = w.len :=
+  let ⟨a, b, _, d⟩ := remove_entity hi e
+  ⟨a, b, d⟩
+
+theorem C01_clear {w w' : World} {order : List Mask} {drops : List Val} (hi : Inv w)
+    (e : w.clear order = .ok (w', drops)) : (∀ id, w'.entity id = none) ∧ w'.len = 0 :=
+  clear_entity hi e
+
+theorem C01_entry_add {w w' : World} {id : Ident} {c : Nat} {v : Val} {res : Option (List Val)}
+    (hi : Inv w) (hc : c < w.n) (hv : v.ty = c) (e : w.entryAdd id c v = .ok (w', res)) :
+    w'.entity id = (w.entity id).map (Spec.insertVal v) ∧
+    (∀ id', id' ≠ id → w'.entity id' = w.entity id') ∧ w'.len = w.len :=
+  let ⟨a, b, c, _⟩ := entryAdd_entity hi hc hv e
+  ⟨a, b, c⟩
+
+theorem C01_entry_remove {w w' : World} {id : Ident} {c : Nat} {res : Option (List Val)}
+    (hi : Inv w) (e : w.entryRemove id c = .ok (w', res)) :
+    w'.entity id = (w.entity id).map (fun vs => vs.filter (fun v => v.ty ≠ c)) ∧
+    (∀ id', id' ≠ id → w'.entity id' = w.entity id') ∧ w'.len = w.len :=
+  let ⟨a, b, c, _⟩ := entryRemove_entity hi e
+  ⟨a, b, c⟩
+
+theorem C01_write {w w' : World} {id : Ident} {c : Nat} {v : Val} {res : Option (List Val)}
+    (hi : Inv w) (hv : v.ty = c) (e : w.write id c v = .ok (w', res)) :
+    w'.entity id = (w.entity id).map
+      (fun vs => if vs.any (fun x => x.ty == c) then Spec.insertVal v vs else vs) ∧
+    (∀ id', id' ≠ id → w'.entity id' = w.entity id') ∧ w'.len = w.len :=
+  write_entity hi hv e
+
+theorem C01_reserve_shrink {w : World} (hi : Inv w) :
+    (∀ shape w', w.reserve shape = .ok w' → (∀ id, w'.entity id = w.entity id) ∧ w'.len = w.len) ∧
+    ((∀ id, w.shrinkToFit.entity id = w.entity id) ∧ w.shrinkToFit.len = w.len) :=
+  ⟨fun _ _ e => reserve_entity hi e, shrink_entity hi⟩
+
+/-- `len()` is the number of live identifiers and `is_empty()` says there is none. -/
+theorem C01_len {w : World} (hi : Inv w) :
+    (∃ l : List Ident, l.Nodup ∧ l.length = w.len ∧ ∀ id, id ∈ l ↔ (w.entity id).isSome) ∧
+    (w.isEmpty = true ↔ ∀ id, w.entity id = none) :=
+  ⟨⟨w.stored, len_counts_entities hi⟩, isEmpty_iff hi⟩
+
+/-- `contains` / `entry` agree with the map. -/
+theorem C01_contains {w : World} (hi : Inv w) (id : Ident) :
+    w.contains id = (w.entity id).isSome ∧ w.hasEntry id = (w.entity id).isSome := by
+  have h1 := entity_isSome_iff hi (id := id)
+  have h2 := Alloc.isActive_iff_get (a := w.alloc) (id := id)
+  unfold World.contains World.hasEntry
+  constructor
+  · cases ha : w.alloc.isActive id <;> cases he : (w.entity id).isSome <;> simp_all
+  · cases ha : (w.alloc.get id).isSome <;> cases he : (w.entity id).isSome <;> simp_all
+
+/-! ### the order components are written in does not matter -/
+
+theorem lookup_some_iff {l : List (Nat × Val)} (hn : (l.map (·.1)).Nodup) {c : Nat} {v : Val} :
+    l.lookup c = some v ↔ (c, v) ∈ l := by
+  induction l with
+  | nil => simp
+  | cons p ps ih =>
+    obtain ⟨k, x⟩ := p
+    simp only [List.map_cons, List.nodup_cons] at hn
+    simp only [List.lookup_cons, List.mem_cons, Prod.mk.injEq]
+    by_cases hck : c = k
+    · subst hck
+      simp only [beq_self_eq_true, Option.some.injEq, true_and]
+      constructor
+      · intro h; exact Or.inl h.symm
+      · rintro (h | h)
+        · exact h.symm
+        · exact absurd (List.mem_map.mpr ⟨(c, v), h, rfl⟩) hn.1
+    · have : (c == k) = false := by simpa using hck
+      simp only [this, hck, false_and, false_or]
+      exact ih hn.2
+
+/-- Writing the same components in another order (`entity!(A, B)` vs `entity!(B, A)`) gives the
+same canonical row, hence the same table, the same identifier and the same world. -/
+theorem C01_written_order_irrelevant {n : Nat} {shape shape' : List Nat} {vals vals' : List Val}
+    (hn : shape.Nodup) (hl : shape.length = vals.length) (hl' : shape'.length = vals'.length)
+    (hp : (shape.zip vals).Perm (shape'.zip vals')) :
+    World.canonVals n shape vals = World.canonVals n shape' vals' ∧
+    Mask.ofShape n shape = Mask.ofShape n shape' := by
+  have hk : (shape.zip vals).map (·.1) = shape := List.map_fst_zip (by omega)
+  have hk' : (shape'.zip vals').map (·.1) = shape' := List.map_fst_zip (by omega)
+  have hps : shape.Perm shape' := by
+    have := hp.map (·.1); rwa [hk, hk'] at this
+  have hn1 : ((shape.zip vals).map (·.1)).Nodup := by rw [hk]; exact hn
+  have hn2 : ((shape'.zip vals').map (·.1)).Nodup := by rw [hk']; exact hps.nodup_iff.mp hn
+  constructor
+  · unfold World.canonVals
+    apply filterMap_congr'
+    intro c _
+    apply Option.ext
+    intro v
+    rw [lookup_some_iff hn1, lookup_some_iff hn2]
+    exact hp.mem_iff
+  · unfold Mask.ofShape
+    apply List.map_congr_left
+    intro c _
+    have : c ∈ shape ↔ c ∈ shape' := hps.mem_iff
+    cases h1 : shape.contains c <;> cases h2 : shape'.contains c <;> simp_all
+
+theorem C01_insert_order_irrelevant {w : World} {shape shape' : List Nat} {vals vals' : List Val}
+    (hn : shape.Nodup) (hl : shape.length = vals.length) (hl' : shape'.length = vals'.length)
+    (hp : (shape.zip vals).Perm (shape'.zip vals')) :
+    w.insert shape vals = w.insert shape' vals' := by
+  obtain ⟨h1, h2⟩ := C01_written_order_irrelevant (n := w.n) hn hl hl' hp
+  unfold World.insert
+  rw [h1, h2]
+
+/-! ### refinement over histories -/
+
+/-- The reference: a finite map from identifiers to rows. -/
+abbrev EMap := Ident → Option (List Val)
+
+def EMap.upd (m : EMap) (id : Ident) (x : Option (List Val)) : EMap := fun j => if j = id then x else m j
+
+/-- One step of the reference map.  Fresh identifiers are chosen by the implementation; the
+reference only demands that they were not live. -/
+def RefStep (n : Nat) (m m' : EMap) : Op → Prop
+  | .insert shape vals =>
+      ∃ nid, m nid = none ∧ m' = m.upd nid (some (World.canonVals n shape vals))
+  | .extend shape rows =>
+      ∃ ids : List Ident, ids.length = rows.length ∧ ids.Nodup ∧ (∀ id ∈ ids, m id = none) ∧
+        (∀ (k : Nat) (id : Ident) (r : List Val), ids[k]? = some id → rows[k]? = some r →
+          m' id = some (World.canonVals n shape r)) ∧
+        (∀ id', id' ∉ ids → m' id' = m id')
+  | .remove id => m' = m.upd id none
+  | .clear _ => m' = fun _ => none
+  | .add id _ v => m' = m.upd id ((m id).map (Spec.insertVal v))
+  | .del id c => m' = m.upd id ((m id).map (fun vs => vs.filter (fun v => v.ty ≠ c)))
+  | .write id c v =>
+      m' = m.upd id ((m id).map
+        (fun vs => if vs.any (fun x => x.ty == c) then Spec.insertVal v vs else vs))
+  | .reserve _ => m' = m
+  | .shrink => m' = m
+
+inductive RefRun (n : Nat) : EMap → List Op → EMap → Prop
+  | nil (m : EMap) : RefRun n m [] m
+  | cons {m m1 m' : EMap} {op : Op} {ops : List Op} :
+      RefStep n m m1 op → RefRun n m1 ops m' → RefRun n m (op :: ops) m'
+
+theorem upd_ext {m m' : EMap} {id : Ident} {x : Option (List Val)} (h1 : m' id = x)
+    (h2 : ∀ id', id' ≠ id → m' id' = m id') : m' = m.upd id x := by
+  funext j
+  unfold EMap.upd
+  by_cases h : j = id
+  · subst h; simp [h1]
+  · simp [h, h2 j h]
+
+/-- **Every step of the implementation is a step of the reference map.** -/
+theorem C01_step_refines {w w' : World} (hi : Inv w) {op : Op} (hwt : op.wt w.n)
+    (e : step w op = .ok w') : RefStep w.n w.entity w'.entity op := by
+  cases op with
+  | insert shape vals =>
+    obtain ⟨nid, h⟩ := fstOut_ok e
+    obtain ⟨p1, p2, p3, _⟩ := insert_entity hi h
+    exact ⟨nid, p1, upd_ext p2 p3⟩
+  | extend shape rows =>
+    obtain ⟨ids, h⟩ := fstOut_ok e
+    obtain ⟨q1, q2, q3, q4, q5, _⟩ := extend_entity hi h
+    exact ⟨ids, q1, q2, q3, q4, q5⟩
+  | remove id =>
+    obtain ⟨d, h⟩ := fstOut_ok e
+    obtain ⟨p1, p2, _, _⟩ := remove_entity hi h
+    exact upd_ext p1 p2
+  | clear order =>
+    obtain ⟨d, h⟩ := fstOut_ok e
+    exact funext (clear_entity hi h).1
+  | add id c v =>
+    obtain ⟨d, h⟩ := fstOut_ok e
+    obtain ⟨p1, p2, _, _⟩ := entryAdd_entity hi hwt.1 hwt.2 h
+    exact upd_ext p1 p2
+  | del id c =>
+    obtain ⟨d, h⟩ := fstOut_ok e
+    obtain ⟨p1, p2, _, _⟩ := entryRemove_entity hi h
+    exact upd_ext p1 p2
+  | write id c v =>
+    obtain ⟨d, h⟩ := fstOut_ok e
+    obtain ⟨p1, p2, _⟩ := write_entity hi hwt h
+    exact upd_ext p1 p2
+  | reserve shape => exact funext (reserve_entity hi e).1
+  | shrink =>
+    simp only [step, Out.ok.injEq] at e
+    subst e
+    exact funext (shrink_entity hi).1
+
+/-- **Refinement**: every history of admissible operations, started on the empty world, is a run
+of the reference map ending in the map the final world denotes; and in that world `len()` is the
+number of live identifiers. -/
+theorem C01_refinement (n : Nat) (res : List Val) (ops : List Op) (hwt : ∀ op ∈ ops, op.wt n)
+    {w : World} (h : run (World.init n res) ops = .ok w) :
+    RefRun n (fun _ => none) ops w.entity ∧
+    ∃ l : List Ident, l.Nodup ∧ l.length = w.len ∧ ∀ id, id ∈ l ↔ (w.entity id).isSome := by
+  have key : ∀ (ops : List Op) (w0 : World), Inv w0 → w0.n = n → (∀ op ∈ ops, op.wt n) →
+      run w0 ops = .ok w → RefRun n w0.entity ops w.entity := by
+    intro ops
+    induction ops with
+    | nil =>
+      intro w0 _ _ _ h0
+      simp only [run, Out.ok.injEq] at h0
+      subst h0
+      exact RefRun.nil _
+    | cons op ops ih =>
+      intro w0 hi0 hn0 hw0 h0
+      simp only [run] at h0
+      cases hs : step w0 op with
+      | ub x => simp [hs] at h0
+      | ok w1 =>
+        simp only [hs] at h0
+        have hwt0 : op.wt w0.n := by rw [hn0]; exact hw0 op (by simp)
+        have r1 := C01_step_refines hi0 hwt0 hs
+        rw [hn0] at r1
+        exact RefRun.cons r1
+          (ih w1 (step_inv hi0 hs) (by rw [step_n hi0 hs, hn0]) (fun o ho => hw0 o (by simp [ho])) h0)
+  have hinit : (World.init n res).entity = fun _ => none := by
+    funext id; rfl
+  refine ⟨?_, w.stored, len_counts_entities (run_inv (inv_init n res) ops h)⟩
+  rw [← hinit]
+  exact key ops _ (inv_init n res) rfl hwt h
+
+/-- Non-vacuity: the map of a concrete reachable world. -/
+example :
+    let w := run (World.init 3 [])
+      [.insert [1, 0] [⟨1, 11⟩, ⟨0, 10⟩], .extend [2] [[⟨2, 20⟩], [⟨2, 21⟩]],
+       .add ⟨0, 0⟩ 2 ⟨2, 22⟩, .del ⟨0, 0⟩ 1, .remove ⟨2, 0⟩]
+    (match w with
+      | .ok w => (w.entity ⟨0, 0⟩, w.entity ⟨1, 0⟩, w.entity ⟨2, 0⟩, w.len)
+      | .ub _ => (none, none, none, 0)) =
+    (some [⟨0, 10⟩, ⟨2, 22⟩], some [⟨2, 20⟩], none, 2) := by decide
+
 end Brood
-#print axioms Brood.C01_placeholder_init
+
+#print axioms Brood.C01_insert
+#print axioms Brood.C01_extend
+#print axioms Brood.C01_remove
+#print axioms Brood.C01_clear
+#print axioms Brood.C01_entry_add
+#print axioms Brood.C01_entry_remove
+#print axioms Brood.C01_write
+#print axioms Brood.C01_reserve_shrink
+#print axioms Brood.C01_len
+#print axioms Brood.C01_contains
+#print axioms Brood.C01_written_order_irrelevant
+#print axioms Brood.C01_insert_order_irrelevant
+#print axioms Brood.C01_step_refines
+#print axioms Brood.C01_refinement
